@@ -127,7 +127,7 @@ def cases(tier, seed):
                 N = [rng.choice((2, 3)) for _ in range(d)]
                 cs.append({'gen': 'neg', 'row': 'bad-index', 'form': form, 'N': N})
     # element-count mismatch, invalid permutations, size mismatches in argument lists
-    for op in ('reshape', 'reshape_ttm_rows', 'reshape_ttm_cols', 'qtt_to_tens_sizes', 'qtt_to_tens_prefix_short', 'qtt_to_tens_prefix_short_rank1', 'qtt_to_tens_prefix_one_mode_rank1', 'qtt_to_tens_long', 'reshape_prefix_short', 'reshape_prefix_short_rank1', 'reshape_prefix_long', 'to_qtt_size3', 'to_qtt_size6', 'to_qtt_ttm_nonsquare', 'to_qtt_ttm_size3', 'permute_dup', 'permute_short', 'permute_long',
+    for op in ('reshape', 'reshape_ttm_rows', 'reshape_ttm_cols', 'qtt_to_tens_sizes', 'qtt_to_tens_prefix_short', 'qtt_to_tens_prefix_short_rank1', 'qtt_to_tens_prefix_one_mode_rank1', 'qtt_to_tens_long', 'reshape_prefix_short', 'reshape_prefix_short_rank1', 'reshape_prefix_long', 'reshape_ttm_split', 'reshape_ttm_split_rank1', 'reshape_ttm_split_lead11', 'to_qtt_size3', 'to_qtt_size6', 'to_qtt_ttm_nonsquare', 'to_qtt_ttm_size3', 'permute_dup', 'permute_short', 'permute_long',
                'mprod_size', 'mprod_lists', 'mprod_repeated_mode', 'cat_mode_mismatch_before', 'cat_mode_mismatch_after', 'cat_mode_mismatch_both', 'cat_order', 'pad_too_many', 'dot_axis_size', 'dot_axis_count', 'dot_b_longer',
                'ctor_shape_numel', 'ctor_ttm_shape_numel', 'random_bad_R', 'set_core_rank', 'set_core_dims', 'mask_dense'):
         for rep in range(k):
@@ -317,6 +317,10 @@ def build(case, g):
             'reshape_prefix_short': (DOC, lambda: tt.reshape(mk([2, 2, 2, 3], g), [4, 2])),
             'reshape_prefix_short_rank1': (DOC, lambda: tt.reshape(tt.ones([2, 2, 2, 3]) * 0.5, [[4, 2], [2, 2], [4], [2, 2, 2]][p % 4])),
             'reshape_prefix_long': (DOC, lambda: tt.reshape(tt.ones([2, 2, 3]) * 0.5, [2, 2, 3, 2])),
+            # operators: the same TOTAL number of entries, but another split between rows and columns (4x4 -> 8x2 ...), on generic and on rank-one operators
+            'reshape_ttm_split': (DOC, lambda: tt.reshape(mk([2, 2], g, True), [[(4, 2), (2, 1)], [(2, 4), (1, 2)], [(2, 2), (4, 1)]][p % 3])),
+            'reshape_ttm_split_rank1': (DOC, lambda: tt.reshape(tt.eye([2, 2]) * 0.5, [[(4, 2), (2, 1)], [(2, 2), (4, 1)], [(2, 4), (1, 2)], [(8, 2)], [(2, 8)]][p % 5 if d >= 1 else 0])),
+            'reshape_ttm_split_lead11': (DOC, lambda: tt.reshape(tt.rank1TT([torch.eye(2, dtype=torch.float64), torch.ones(3, 3, dtype=torch.float64)]), [[(1, 1), (12, 3)], [(1, 1), (3, 12)], [(1, 1), (4, 9)]][p % 3])),
             'to_qtt_size3': (DOC, lambda: mk([3] + N, g).to_qtt()), 'to_qtt_size6': (DOC, lambda: mk(N + [6], g).to_qtt()),
             'to_qtt_ttm_nonsquare': (DOC, lambda: mk([2, 4], g, True, [4, 2]).to_qtt()), 'to_qtt_ttm_size3': (DOC, lambda: mk([3, 4], g, True).to_qtt()),
             'permute_dup': (DOC, lambda: tt.permute(x, [0] * d)), 'permute_short': (DOC, lambda: tt.permute(x, list(range(d - 1)))), 'permute_long': (DOC, lambda: tt.permute(x, list(range(d + 1)))),
